@@ -996,6 +996,100 @@ func boundDesc(b *big.Int, sym string) string {
 // ruleSpongeOverwrite (C09/O9.4): the Goldilocks sponge absorbs in overwrite mode — inside the absorption loops the
 // only writes to the state are state[j] = input[i+j] (guarded by i+j < len(input)) for j below the rate, and the
 // permutation's result; in particular a short last chunk leaves the remaining rate elements in place.
+// ruleSpongeSqueeze (O9.5): outputs are squeezed from the rate part only — the loop that appends state[i] to the
+// output list ranges over 0..SPONGE_RATE-1 (never into the capacity) and the permutation is applied between rounds.
+func ruleSpongeSqueeze(cx *Ctx) []Obligation {
+	P := cx.P
+	key := "C09/O9.5/squeeze-rate"
+	desc := "outputs are taken from the rate part of the state only: the loop appending state[i] to the outputs runs i = 0 … SPONGE_RATE−1 (SPONGE_RATE smaller than the state width), so capacity elements are never output and a request for more than SPONGE_RATE outputs permutes again"
+	fn := P.Func("poseidon", "(*GoldilocksChip).HashNToMNoPad")
+	if fn == nil {
+		return []Obligation{undecided(key, desc, "poseidon.GoldilocksChip.HashNToMNoPad not found")}
+	}
+	fi := GetFnInfo(fn)
+	rate := int64(-1)
+	if c, ok := P.SPkgs["poseidon"].Members["SPONGE_RATE"].(*ssa.NamedConst); ok {
+		rate, _ = constInt(c.Value)
+	}
+	if rate <= 0 {
+		return []Obligation{undecided(key, desc, "constant SPONGE_RATE not found")}
+	}
+	found := 0
+	for _, b := range fn.Blocks {
+		for _, ins := range b.Instrs {
+			ld, ok := ins.(*ssa.UnOp)
+			if !ok || ld.Op != token.MUL {
+				continue
+			}
+			ia, ok := ld.X.(*ssa.IndexAddr)
+			if !ok {
+				continue
+			}
+			al, ok := ia.X.(*ssa.Alloc)
+			if !ok {
+				continue
+			}
+			at, isArr := al.Type().Underlying().(*types.Pointer).Elem().Underlying().(*types.Array)
+			if !isArr || !typeIs(at.Elem(), "goldilocks.Variable") || at.Len() <= 4 {
+				continue
+			}
+			// does the loaded element reach an append (through the variadic temporary)?
+			if !reachesAppend(ld, 0) {
+				continue
+			}
+			l := fi.IvOf[ia.Index]
+			site := P.Pos(ld.Pos())
+			if l == nil {
+				return []Obligation{bad(key, desc, "a state element is output at an index that is not a loop variable", site)}
+			}
+			found++
+			if !l.Counted || l.StartConst == nil || *l.StartConst != 0 || l.Step != 1 || l.Op != token.LSS {
+				return []Obligation{bad(key, desc, "the squeeze loop is not i = 0; i < n; i++", site)}
+			}
+			n, isConst := constInt(stripCopies(l.Bound))
+			if !isConst {
+				return []Obligation{bad(key, desc, "the squeeze loop is bounded by "+l.Bound.String()+", not by the constant SPONGE_RATE", site)}
+			}
+			if n != rate || rate >= at.Len() {
+				return []Obligation{bad(key, desc, fmt.Sprintf("the squeeze loop outputs %d state elements; the rate is %d of a state of %d", n, rate, at.Len()), site)}
+			}
+		}
+	}
+	if found == 0 {
+		return []Obligation{undecided(key, desc, "no loop appending state elements to the outputs was found")}
+	}
+	return []Obligation{good(key, desc, P.FnName(fn))}
+}
+
+// reachesAppend: v is stored into the temporary of a variadic append (or passed to append directly)
+func reachesAppend(v ssa.Value, depth int) bool {
+	if depth > 4 || v.Referrers() == nil {
+		return false
+	}
+	for _, r := range *v.Referrers() {
+		switch x := r.(type) {
+		case *ssa.Store:
+			if x.Val != v {
+				continue
+			}
+			if ia, ok := x.Addr.(*ssa.IndexAddr); ok {
+				if al, ok := ia.X.(*ssa.Alloc); ok && al.Comment == "varargs" {
+					for _, r2 := range *al.Referrers() {
+						if sl, ok := r2.(*ssa.Slice); ok && reachesAppend(sl, depth+1) {
+							return true
+						}
+					}
+				}
+			}
+		case *ssa.Call:
+			if b, ok := x.Common().Value.(*ssa.Builtin); ok && b.Name() == "append" {
+				return true
+			}
+		}
+	}
+	return false
+}
+
 func ruleSpongeOverwrite(cx *Ctx) []Obligation {
 	P := cx.P
 	key := "C09/O9.4/overwrite-mode"
